@@ -146,6 +146,7 @@ def dispatch (op : String) (args : List Sexp) : String :=
   | "gds.write" => opGdsWrite args
   | "gds.read" => opGdsRead args
   | "gds.c03" => opGdsRead (args.take 1)
+  | "gds.open" => opGdsRead (args.take 1)      -- a file holds the same bytes: the model reads them the same way
   | "lefraw.import" => opLefRawImport args
   | "place" => opPlace args
   | "place.array" => opPlaceArray args
@@ -159,6 +160,8 @@ def dispatch (op : String) (args : List Sexp) : String :=
   | "lef.enum" => opLefEnum args
   | "lef.dbu" => opLefDbu args
   | "lef.parse" => LefP.opLefParse args
+  | "lef.open" => LefP.opLefParse args       -- a file holds the same text: the reader model reads it the same way
+  | "lef.wfail" => "unsupported"
   | "lef.wtokens" => LefP.opLefWTokens args
   | "lef.read" => "unsupported"
   | "lef.wr" => LefP.opLefWr args
